@@ -248,7 +248,11 @@ def shard_extra(tier, seed, shard, nshards, tally, deadline):
 
 
 MANIFEST = {
-    'text': ('Generated search over (graph incl. cyclic ones, outcomes incl. exceptions and malformed returns, '
+    'text': ('Also generated: updates that cannot be merged into the environment, the same Scheduler scheduled '
+             'again on the environment it left, back-end reuse after another graph (whose master may have '
+             'failed), nested graph nodes, spurious wake-ups; 12/250 cases per shard run on real threads in a '
+             'child process (a hang or leak there is reported only when the controlled scheduler reproduces it). '
+             'Generated search over (graph incl. cyclic ones, outcomes incl. exceptions and malformed returns, '
              'initial environments, worker count, schedule) on the real back-end with the harness owning the '
              'schedule: deadlock (no enabled thread), threads alive or blocked for ever when the call comes '
              'back and left-over queue items are decided exactly by the controller, not by timers; all '
